@@ -5,6 +5,7 @@ package props
 import (
 	"bytes"
 	"crypto"
+	"encoding/binary"
 	"fmt"
 	"io"
 	"os"
@@ -83,7 +84,32 @@ func c13Units(tier string) []string {
 
 func c13DriveImage(x []byte) { c13DriveImageVia(bytes.NewReader(x)) }
 
-func c13DriveImageVia(r io.ReaderAt) {
+// countingReaderAt counts the bytes the library asks of the image: work proportional to the input
+// means a bounded number of passes over it, whatever the headers claim.
+type countingReaderAt struct {
+	r     io.ReaderAt
+	n     int64
+	limit int64
+}
+
+type amplification struct{ read, limit int64 }
+
+func (a amplification) String() string {
+	return fmt.Sprintf("reads more than %d bytes from the image reader (limit for this input: 64 x its size + 1 MiB)", a.limit)
+}
+
+func (c *countingReaderAt) ReadAt(p []byte, off int64) (int, error) {
+	n, err := c.r.ReadAt(p, off)
+	c.n += int64(n)
+	if c.n > c.limit {
+		panic(amplification{c.n, c.limit}.String())
+	}
+	return n, err
+}
+
+func c13DriveImageVia(r0 io.ReaderAt) {
+	size, _ := io.Copy(io.Discard, io.NewSectionReader(r0, 0, 1<<62))
+	r := &countingReaderAt{r: r0, limit: 64*size + 1<<20}
 	p, err := authenticode.Parse(r)
 	if err != nil {
 		return
@@ -93,6 +119,22 @@ func c13DriveImageVia(r io.ReaderAt) {
 	p.Bytes()
 	io.Copy(io.Discard, p.Open())
 	p.Verify(keys.C(1))
+}
+
+// c13Overlapping builds an image whose k sections all claim the same region of secBytes bytes
+// behind the headers (the sum of their sizes is unrelated to the file size).
+func c13Overlapping(k, secBytes int) []byte {
+	img := pegen.Build(pegen.Layout{PE32Plus: true, Lfanew: 0x40, Secs: make([]pegen.Sec, k), Trailing: secBytes})
+	im, err := refpe.Parse(img)
+	if err != nil {
+		return img
+	}
+	for _, s := range im.Sections {
+		binary.LittleEndian.PutUint32(img[s.HeaderOff+8:], uint32(secBytes))
+		binary.LittleEndian.PutUint32(img[s.HeaderOff+16:], uint32(secBytes))
+		binary.LittleEndian.PutUint32(img[s.HeaderOff+20:], uint32(im.SizeOfHeaders))
+	}
+	return img
 }
 
 func c13DriveBlob(entry int, b []byte, img []byte) {
@@ -324,6 +366,12 @@ func c13Run(c *hx.Ctx, tier, unit string) {
 			}
 		})
 	case "bigfiles":
+		// many sections claiming one region: the sum of the sizes passes 2^16, 2^31, 2^32 while the file stays small
+		for _, kc := range [][2]int{{2, 4096}, {17, 4096}, {64, 1 << 20}, {2047, 1 << 20}, {2048, 1 << 20}, {4095, 1 << 20}, {4096, 1 << 20}, {4097, 1 << 20}, {8192, 1<<20 - 8}} {
+			x := c13Overlapping(kc[0], kc[1])
+			c.Tick()
+			robustRun(c, "C13", "image driver", fmt.Sprintf("%d sections claiming the same %d bytes", kc[0], kc[1]), x[:min(len(x), 4096)], func() { c13DriveImage(x) })
+		}
 		// the repository's larger binaries: single-field deviations only
 		for _, f := range []string{"/repo/tests/data/binary/HelloWorld.efi", "/repo/tests/data/binary/HelloWorld.efi.signed", "/repo/tests/data/binary/linuxx64.efi.stub"} {
 			img, err := os.ReadFile(f)
